@@ -200,6 +200,21 @@ def sqlite_strategy(ctx, prog):
         ctx.ob("C14-D3/DEP", ok, gr.site(c), "the UPDATE marks every collected txoid as reserved", detail="" if ok else unparse(a)[:80] if a else "", func=gq)
         R.gate(ctx, "C14-D3/GATE", gr, c, "reserved_dewies >= amount_to_reserve and set_reserved", "outputs are reserved when enough were found",
                key=f"C14-D3/GATE|{gq}|enough")
+        R.exact_gate(ctx, "C14-D3/GATE", gr, c, "reserved_dewies >= amount_to_reserve and set_reserved", "…always (whenever rows are handed out for spending and set_reserved is on, they are reserved)",
+                     ignore=["reserved_dewies < amount_to_reserve", "gap_count < 5", "floor * multiplier < SQLITE_MAX_INTEGER"], key=f"C14-D3/GATE|{gq}|enough-exact")
+    for r_ in gr.stmts(ast.Return):
+        if dotted(r_.value) == "txs":
+            ok = bool(up) and gr.guarded(r_, "reserved_dewies >= amount_to_reserve")[0] and R.prev_stmt(r_) is not None and any(x is up[0] for x in ast.walk(R.prev_stmt(r_)))
+            ctx.ob("C14-D3/ORDER", ok, gr.site(r_), "the rows are returned for spending right after the reservation statement, in the same branch", func=gq, key=f"C14-D3/ORDER|{gq}|reserve-then-return")
+    dg = ctx.fa(f"{DB}.get_spendable_utxos")
+    dflt = {a.arg: d for a, d in zip(reversed(dg.node.args.args), reversed(dg.node.args.defaults))}
+    ok = is_const(dflt.get("set_reserved"), True) and is_const(dflt.get("return_insufficient_funds"), False)
+    ctx.ob("C14-D3/GATE", ok, dg.site(), "Database.get_spendable_utxos reserves by default (set_reserved=True) and hands out nothing when funds are insufficient", func=dg.fi.qualname,
+           key="C14-D3/GATE|defaults")
+    for m_, c_ in prog.calls_named("get_spendable_utxos"):
+        if m_.name.startswith("lbry.wallet") and not m_.name.startswith("lbry.wallet.server") and isinstance(c_.func, ast.Attribute) and dotted(c_.func).endswith("db.get_spendable_utxos"):
+            ok = kwarg(c_, "set_reserved") is None or is_const(kwarg(c_, "set_reserved"), True)
+            ctx.ob("C14-D3/GATE", ok, f"{m_.relpath}:{c_.lineno}", "no caller switches the reservation off", func=getattr(prog.function_of(c_), "qualname", None), key=f"C14-D3/GATE|caller|{m_.name}")
     inner = [c for c in gr.calls(name="_get_spendable_utxos")]
     ok = len(inner) == 1 and [dotted(a) for a in inner[0].args[:5]] == ["transaction", "accounts", "decoded_transactions", "txs", "reserved"]
     ctx.ob("C14-D3/DEP", ok, gr.site(), "rows to spend (`txs`) and txoids to reserve (`reserved`) are filled by the same scan", func=gq)
@@ -356,3 +371,78 @@ def release(ctx, prog, hier):
                     ctx.ob("C14-D4/STATE", p2 is None, fa.site(defs[0]), f"{f.short}: once `{var}` is built every normal path broadcasts or releases it",
                            detail="" if p2 is None else "path " + fa.fmt_path(p2), func=f.qualname, key=f"C14-D4/STATE|{f.qualname}|{var}|broadcast-or-release")
     ctx.floor("C14-D4/STATE", "functions that release a transaction", n, 10)
+    owners(ctx, prog)
+
+
+def owners(ctx, prog):
+    """typestate anchored at the PRODUCERS of transactions (so that deleting the release / broadcast cannot make the instance disappear):
+    every function that receives a freshly built transaction in a local variable must, on every normal path to its exit, hand it to
+    broadcast_or_release / broadcast or release_tx — or return it to its caller from a function that is itself a producer"""
+    from .. import terms as _t
+    txc = prog.cls(TX)
+    builders = {"create"}
+    for name, m in txc.methods.items():
+        if any(isinstance(c, ast.Call) and dotted(c.func) in ("cls.create", "Transaction.create") for c in ast.walk(m.node)):
+            builders.add(name)
+    wrappers = set()
+    for f in prog.functions.values():
+        if not f.module.name.startswith("lbry.") or f.module.name.startswith(("lbry.wallet.server", "lbry.testcase", "lbry.wallet.orchstr8")) or f.cls is txc:
+            continue
+        for r in [x for x in walk_local_body(f.node) if isinstance(x, ast.Return) and x.value is not None]:
+            v = r.value.value if isinstance(r.value, ast.Await) else r.value
+            if isinstance(v, ast.Call) and call_name(v) in builders and (dotted(v.func) or "").startswith("Transaction."):
+                wrappers.add(f.name)
+    n = 0
+    for f in list(prog.functions.values()):
+        if not f.module.name.startswith("lbry.") or f.module.name.startswith(("lbry.wallet.server", "lbry.testcase", "lbry.wallet.orchstr8")) or f.cls is txc:
+            continue
+        prods = []
+        for a in [x for x in walk_local_body(f.node) if isinstance(x, ast.Assign)]:
+            v = a.value.value if isinstance(a.value, ast.Await) else a.value
+            if isinstance(v, ast.Call) and len(a.targets) == 1 and isinstance(a.targets[0], ast.Name) and \
+                    ((call_name(v) in builders and (dotted(v.func) or "").startswith("Transaction.")) or call_name(v) in wrappers):
+                prods.append((a.targets[0].id, a))
+        if not prods:
+            continue
+        fa = ctx.eng.fa_of(f)
+        for var in sorted({v for v, _ in prods}):
+            n += 1
+            defs = [a for v, a in prods if v == var]
+            calls = [c for c in walk_local_body(f.node) if isinstance(c, ast.Call)]
+            fin = [c for c in calls if call_name(c) in ("broadcast_or_release", "broadcast", "release_tx") and c.args and dotted(c.args[0]) == var]
+            done = {x.id for c in fin for x in fa.cfg_nodes(c)}
+            # `var = None` ends the obligation only where it directly follows the hand-over (the `broadcast…(payment); payment = None` idiom)
+            resets = {x.id for s_ in fa.stmts(ast.Assign) if any(dotted(t) == var for t in s_.targets) and is_const(s_.value, None)
+                      and R.prev_stmt(s_) is not None and any(c in fin for c in ast.walk(R.prev_stmt(s_))) for x in fa.cfg_nodes(s_)}
+            escapes = {x.id for r in fa.stmts(ast.Return) if r.value is not None and dotted(r.value) == var and f.name in wrappers for x in fa.cfg_nodes(r)}
+            none_t = _t.atom(ast.parse(f"{var} is None", mode="eval").body)
+            start = [x for d in defs for x in fa.cfg_nodes(d)]
+            p2 = fa.path(start, [fa.cfg.exit], avoid=lambda x: x.id in done or x.id in resets or x.id in escapes, include_exc=False,
+                         edge_ok=lambda e: not any((l.term == none_t[0] and l.pol == none_t[1]) or (l.term == var and l.pol is False) for l in e.labels))
+            clears = [s_ for s_ in fa.stmts(ast.Assign) if any(dotted(t) == var for t in s_.targets) and is_const(s_.value, None)
+                      and not any(x.id in resets for x in fa.cfg_nodes(s_))]
+            for s_ in clears:
+                p3 = fa.path(start, fa.cfg_nodes(s_), avoid=lambda x: x.id in done or x.id in resets, include_exc=False)
+                ctx.ob("C14-D4/OWNER", p3 is None, fa.site(s_), f"{f.short}: `{var}` is cleared only right after the transaction was handed to broadcast / release "
+                       f"(clearing it earlier makes the later `is not None` clean-up skip a transaction whose inputs are still reserved)",
+                       detail="" if p3 is None else "path " + fa.fmt_path(p3), func=f.qualname, key=f"C14-D4/OWNER|{f.qualname}|{var}|clear")
+            ctx.ob("C14-D4/OWNER", p2 is None, fa.site(defs[0]), f"{f.short}: the transaction built into `{var}` is broadcast or released on every normal path (its inputs are reserved "
+                   f"from the moment it is built)", detail="" if p2 is None else "path " + fa.fmt_path(p2) + " reaches the exit with the inputs still reserved", func=f.qualname,
+                   key=f"C14-D4/OWNER|{f.qualname}|{var}")
+    ctx.floor("C14-D4/OWNER", "functions that receive a freshly built transaction", n, 15)
+    # the one owner that keeps the transaction across many awaits (the whole download) releases it in a `finally`
+    for qn, var in (("lbry.file.file_manager.FileManager.download_from_uri", "payment"),):
+        fa = ctx.fa(qn)
+        fin_rel = [c for c in fa.calls(name="release_tx") if c.args and dotted(c.args[0]) == var and
+                   fa.lexically_inside(c, lambda a: isinstance(a, ast.Try) and any(c in list(ast.walk(s_)) for s_ in a.finalbody)) is not None]
+        ctx.ob("C14-D4/CLEANUP", len(fin_rel) == 1 and isinstance(fin_rel[0]._parent, ast.Await), fa.site(), f"{fa.fi.short}: a `finally` releases `{var}` (a failure anywhere between "
+               "building the payment and broadcasting it must not leave its inputs reserved)", func=qn, key=f"C14-D4/CLEANUP|{qn}|finally-release")
+        for c in fin_rel:
+            tr = fa.lexically_inside(c, lambda a: isinstance(a, ast.Try) and any(c in list(ast.walk(s_)) for s_ in a.finalbody))
+            have, _F = R.atomic_facts_at(fa, c)
+            t_none = R.terms.atom(ast.parse(f"{var} is None", mode="eval").body)[0]
+            ok = (t_none, False) in have and all(k[0] == t_none for k in have)
+            ctx.ob("C14-D4/CLEANUP", ok, fa.site(c), f"…whenever `{var}` is still set, under no further condition", detail=R.fmt_missing(sorted(have)), func=qn, key=f"C14-D4/CLEANUP|{qn}|finally-exact")
+            prod = [a for a in fa.stmts(ast.Assign) if any(dotted(t) == var for t in a.targets) and not is_const(a.value)]
+            ok = bool(prod) and all(any(a in list(ast.walk(s_)) for s_ in tr.body) for a in prod)
+            ctx.ob("C14-D4/CLEANUP", ok, fa.site(c), f"…and `{var}` is built inside that try", func=qn, key=f"C14-D4/CLEANUP|{qn}|built-inside")
